@@ -80,7 +80,9 @@ fn main() {
         let r = match id.as_str() {
             "C01" => checks::c01::replay(&case),
             "C02" => checks::c02::replay(&case),
+            "C03" => checks::c03::replay(&case),
             "C05" => checks::c05::replay(&case),
+            "C06" => checks::c06::replay(&case),
             "C07" => checks::c07::replay(&case),
             "C08" => checks::c08::replay(&case),
             "C09" => checks::c09::replay(&case),
@@ -112,7 +114,9 @@ fn main() {
     match id.as_str() {
         "C01" => checks::c01::run(&mut ctx),
         "C02" => checks::c02::run(&mut ctx),
+        "C03" => checks::c03::run(&mut ctx),
         "C05" => checks::c05::run(&mut ctx),
+        "C06" => checks::c06::run(&mut ctx),
         "C07" => checks::c07::run(&mut ctx),
         "C08" => checks::c08::run(&mut ctx),
         "C09" => checks::c09::run(&mut ctx),
